@@ -23,7 +23,7 @@ def check(ck: Checker) -> None:
         "C15.upload: streamed uploads go to a fresh temporary name under the store and are added under their digest only after the stream was closed",
         "C15.treelast: directory objects are written after their files: _build_tree (add_update_tree after all _build_files), index.save (all file adds before the first _save_dir_entry), transfer (C04.order)",
         "C15.statetx: hash-state rows are upserted in one transaction; save_many stats the file (or uses the caller's stat) before building the row and skips vanished files",
-        "C15.heal: an unprotected local object is always re-hashed by the next existence query (exact-mode trust, check before report)",
+        "C15.heal: an unprotected local object is always re-hashed by the next existence query (exact-mode trust, check before report), and by LocalHashFileDB.add before the delegated add may skip it as existing",
     ]
     ck.not_decided = ["atomicity of a single copy (temp name + rename inside dvc_objects / fsspec)", "convergence of a re-run to the same store contents (needs execution)", "kill points inside library calls"]
     ck.trusted = ["dvc_objects' ObjectDB.add places objects atomically", "SQLite transactions"]
@@ -126,6 +126,9 @@ def check(ck: Checker) -> None:
     # ----------------------------------------------------------------- heal
     _check_local(ck, rule="C15.heal")
     _check_exists(ck, rule="C15.heal")
+    from . import round5 as _r5
+
+    _r5.local_add_rechecks_unprotected(ck, "C15.heal")
     from . import round4 as _r4
 
     _r4.hashinfo_identity(ck, "C15.treelast")
